@@ -414,13 +414,18 @@ func Word(t *rapid.T, k int, maxLen int) []int {
 			for i := 2; i <= m+1 && l-i >= 0; i++ {
 				w = append(w, w[l-i])
 			}
-		case 3: // repeat the last segment of m symbols r times
+		case 3: // repeat the last segment of m symbols r times, forwards or reversed (periodic runs in both directions)
 			m := rapid.IntRange(1, 4).Draw(t, "m")
-			r := rapid.IntRange(1, 4).Draw(t, "r")
+			r := rapid.IntRange(1, 8).Draw(t, "r")
 			if m > len(w) {
 				m = len(w)
 			}
 			seg := append([]int{}, w[len(w)-m:]...)
+			if rapid.Bool().Draw(t, "reversedRun") {
+				for i, j := 0, len(seg)-1; i < j; i, j = i+1, j-1 {
+					seg[i], seg[j] = seg[j], seg[i]
+				}
+			}
 			for i := 0; i < r; i++ {
 				w = append(w, seg...)
 			}
